@@ -20,7 +20,7 @@ Clauses(T) ==
          (IF T.obs.status = "ok" /\ Lossless(T.data, T.start, T.obs.lines) THEN {} ELSE {"dumpstruct-bytes"})
          \cup (IF T.obs.status = "ok" /\ T.obs.fields = T.fields THEN {} ELSE {"dumpstruct-fields"})
     [] T.kind = "pack" ->
-         IF FitsInt(T.v, T.bits \div 8, T.v.neg) /\ (T.v.neg => T.bits > 0)
+         IF FitsInt(T.v, WBytes(T.bits), T.v.neg) /\ (T.v.neg => T.bits > 0)
          THEN (IF T.obs.status = "ok" /\ T.obs.b = PackBytes(T.v, T.bits, T.endian) THEN {} ELSE {"pack"})
               \cup (IF T.obs.status = "ok" /\ T.obs.back = T.v THEN {} ELSE {"unpack-inverse"})
          ELSE (IF T.obs.status = "ok" THEN {"pack-overflow-accepted"} ELSE {})
